@@ -1,8 +1,8 @@
 SPECIFICATION TSpec
-CONSTANTS MaxNum = 400
+CONSTANTS MaxNum = 8300
   Vals = {"a", "b"}
   OBJSTM = TRUE
   SEEKABLE = FALSE
-  MaxOps = 200
+  MaxOps = 60
   Threshold = 2
 CHECK_DEADLOCK FALSE
